@@ -2396,6 +2396,35 @@ def graph_args_case(ctx, seed, scaled):
     if not np.array_equal(first, second, equal_nan=True):
         ctx.disagree('what=graph_argument;symptom=second_load_differs;array=%s' % nm, case, 'differs', None,
                      'loading the same dask array twice (one thread) gives different values')
+    # a task that writes into one of its INPUT blocks while that block has another reader (sequential run, task by task)
+    from dask.callbacks import Callback
+
+    class InputWatch(Callback):
+        def __init__(self):
+            self.before, self.hits = {}, []
+
+        def _pretask(self, key, dsk, state):
+            deps = state['dependencies'].get(key, ())
+            self.before[key] = {d: (digest(state['cache'][d]), state['cache'][d], len(state['dependents'].get(d, ())))
+                                for d in deps if isinstance(state['cache'].get(d), np.ndarray)}
+
+        def _posttask(self, key, result, dsk, state, worker_id):
+            for d, (dg, v, readers) in self.before.pop(key, {}).items():
+                if digest(v) != dg:         # (the scheduler may have released the block by now: we kept a reference)
+                    self.hits.append((str(key)[:60], str(d)[:60], readers))
+    iw = InputWatch()
+    try:
+        with dask.config.set(scheduler='synchronous'), iw:
+            arr.compute(optimize_graph=False)
+    except Exception:   # noqa
+        ctx.count('graph_args_inputwatch_failed')
+    shared_hits = [h for h in iw.hits if h[2] >= 2]
+    ctx.extra.setdefault('block_inputs_written', {})[nm] = [len(iw.hits), len(shared_hits)]
+    if shared_hits:
+        ctx.disagree('what=graph_argument;symptom=shared_input_block_written;array=%s' % nm, dict(case, task=shared_hits[0][0],
+                     block=shared_hits[0][1]), 'changed', 'unchanged',
+                     'a task writes into an input block that another task of the graph reads too',
+                     spec='arguments handed to every block are only read')
     ctx.extra.setdefault('graph_embedded_arrays', {})[nm] = len(em)
     ctx.note_case(('graph_args', nm, seed), nontrivial=len(em) > 0, sample=dict(array=nm, embedded=len(em)))
     ctx.count('graph_args')
